@@ -16,6 +16,7 @@ from common import Check, Driver, Infra, VERIF, sarpy_guard
 import c13x
 import c13t
 import c13a
+import c13b
 
 sys.path.insert(0, os.path.join(VERIF, 'translate'))
 
@@ -345,6 +346,8 @@ def run(tier):
     broken += xs.prove()
     asg = c13a.Session(chk, tier, gen, c13x.controllers(xs.descs))    # C13a: assignment-time clause over the descriptors of Gen/NitfDescs.lean
     broken += asg.prove()
+    bnd = c13b.Session(chk, tier, gen)    # C13b: capacities of count / length fields (Gen/NitfSlots.lean), boundary families, refused assignments
+    broken += bnd.prove()
     # the pad pixel code width is regenerated from MaskSubheader.define_tpxcd_length and bridged (Bridge/Kernels2.lean)
     import kernels2
     from common import audit as _audit
@@ -427,6 +430,7 @@ def run(tier):
     live = [(l, i, None) for l, i in build_instances(rng, 'quick') if not isinstance(i, Exception)]
     live += [(l, i, p) for l, _d, i, p in c13x.build_instances(rng, 'quick') if not isinstance(i, Exception)]
     asg.enqueue(drv, live)
+    bnd.run()
     try:
         ans = drv.run()
     except Infra as e:
@@ -457,6 +461,10 @@ def run(tier):
     disagreements += d2
     stats.update(s2)
     classes_seen |= set(s2.get('x_classes', []))
+    f5, d5, s5 = bnd.collect()
+    fails += f5
+    disagreements += d5
+    stats.update(s5)
     f4, d4, s4 = asg.collect(ans)
     fails += f4
     disagreements += d4
@@ -471,7 +479,7 @@ def run(tier):
                        + stats.get('x_instances', 0) + stats.get('x_model_records', 0) + stats.get('x_tre_lists', 0)
                        + stats.get('t_payloads', 0) + stats.get('t_model_records', 0) + stats.get('t_dispatch_cases', 0) + stats.get('t_probes', 0)
                        + stats.get('t_snapshot_payloads', 0) + stats.get('a_assignments', 0) + stats.get('a_model_assignments', 0)
-                       + stats.get('h_steps', 0),
+                       + stats.get('h_steps', 0) + stats.get('b_cases', 0) + stats.get('b_tre_loop_cases', 0) + stats.get('b_refused_assignments', 0),
         'distinct_nontrivial': len(classes_seen),
         'rule': 'instances of every NITF 2.1/2.0 element class (defaults + random accepted values: edge-of-width integers incl. negatives, strings up to the width, '
                 'enumerations; file headers with 0-4 item arrays; image subheaders with 1-12 bands incl. the >9 extension, LUTs with 1-3 tables, 0-9 comments, '
